@@ -20,6 +20,8 @@ ModelCfg ==
      app |-> [time |-> FALSE, local |-> FALSE, trouble |-> FALSE, cfg |-> FALSE]]
 
 HdrRec(h) ==
+    IF h.n = "bi" THEN [g |-> 2, v |-> h.v, q |-> IF h.lim >= 0 THEN 7 ELSE 6, a |-> h.lim, b |-> -1]
+    ELSE
     LET v == CASE h.n = "c0" -> 1 [] h.n = "c1" -> 2 [] h.n = "c2" -> 3 [] OTHER -> 4
     IN [g |-> 60, v |-> v, q |-> IF h.lim >= 0 THEN 7 ELSE 6, a |-> h.lim, b |-> -1]
 ClsHdrs(cl) == [i \in 1..Cardinality(cl) |->
